@@ -5,5 +5,5 @@ def load(rel):
     sp=importlib.util.spec_from_file_location('m_'+rel.replace('/','_'),os.path.join(H,rel)); m=importlib.util.module_from_spec(sp); sp.loader.exec_module(m); return m
 def vf(tier,tag): return [j for j in load('vf/jobs_common.py').vf_jobs(tier) if tag in j.tags]
 def blk(tier,pred=lambda j:True): return [j for j in load('block/jobs_common.py').blockin_jobs(tier) if pred(j)]
-def other(pid,tier,pred=lambda j:True): return [j for j in load(pid+'/jobs.py').jobs(tier) if pred(j)]
+def other(pid,tier,pred=lambda j:True,fn='jobs'): return [j for j in getattr(load(pid+'/jobs.py'),fn)(tier) if pred(j)]
 def lap(tier): return load('block/jobs_common.py').lapout_jobs(tier)
